@@ -239,15 +239,17 @@ def gtlDict (nbOf : Nat → List Nat) : BoxDict → List Nat → BoxDict
   | d, [] => d
   | d, i :: rest => gtlDict nbOf (gtlStep d i (nbOf i)) rest
 
+/-- `line.find_neighbors(plane, laparams.line_margin)` for line number `i` of `group_textlines`
+(`plane` holds all the lines). -/
+def nbOfLines (p : LAParams) (pageBB : BB) (lines : List Line) (i : Nat) : List Nat :=
+  match lines[i]? with
+  | some l => neighbors p.line_margin (mkPlane pageBB (lines.zipIdx.map fun (x : Line × Nat) => x.1.pobj x.2)) lines l
+  | none => []
+
 /-- `list(self.group_textlines(laparams, textlines))`. -/
 def groupTextlines (p : LAParams) (pageBB : BB) (lines : List Line) : List Box :=
-  let plane := mkPlane pageBB (lines.zipIdx.map fun (l, i) => l.pobj i)
-  let nbOf := fun i =>
-    match lines[i]? with
-    | some l => neighbors p.line_margin plane lines l
-    | none => []
   let idx := List.range lines.length
-  ((gtlYield (gtlDict nbOf [] idx) [] idx).map fun t => mkBox lines (boxVertical lines t) t).filter
+  ((gtlYield (gtlDict (nbOfLines p pageBB lines) [] idx) [] idx).map fun t => mkBox lines (boxVertical lines t) t).filter
     (fun b => !b.isEmpty)
 
 /-! ### group_textboxes -/
